@@ -467,7 +467,16 @@ func (g *generator) fillFile(f *File, optsFile *File) {
 		m.Fields = append(m.Fields, &Field{Name: strings.ToLower(gname), Number: 900, Label: "optional", Kind: "group", Group: grp, Comment: "A group."})
 	}
 	if g.cfg.Services && r.IntN(2) == 0 {
-		svName := g.uniqueName(used, func() string { return Pascal(g.word()) + "Service" })
+		tries := 0
+		svName := g.uniqueName(used, func() string {
+			// a disambiguating number goes before the suffix that SERVICE_SUFFIX demands
+			tries++
+			w := Pascal(g.word())
+			if tries > 3 {
+				w += fmt.Sprint(tries)
+			}
+			return w + "Service"
+		})
 		sv := &Service{Name: svName, Comment: svName + " serves."}
 		nrpc := 1 + r.IntN(3)
 		usedRPC := map[string]bool{}
